@@ -353,6 +353,11 @@ def emit_value(value: Any, indent: int = 0) -> str:
             if isinstance(item, InlineMap) and not any(not is_absent(v) for v in item.pairs.values()):
                 continue
             parts.append(emit_value(item, indent))
+            last_item = item
+        if len(parts) == 1 and isinstance(last_item, str) and "∧" in parts[0] and not parts[0].startswith('"'):
+            # A one-item list whose bare item contains the constraint operator would be re-read
+            # as a holographic pattern; bare expressions hold no quote or backslash to escape.
+            parts[0] = f'"{parts[0]}"'
         return f"[{','.join(parts)}]"
     elif isinstance(value, InlineMap):
         # I2: Filter out pairs with Absent values before emission
